@@ -22,7 +22,9 @@ const (
 	bSOAP     = saml.SOAPBinding
 )
 
-var c05Bindings = []string{bPost, bPost, bRedirect, bRedirect, bArtifact, bSOAP, "urn:example:unknown", "", strings.ToLower(bPost), bPost + " "}
+const bPAOS = "urn:oasis:names:tc:SAML:2.0:bindings:PAOS"
+
+var c05Bindings = []string{bPost, bPost, bRedirect, bRedirect, bArtifact, bSOAP, bPAOS, "urn:example:unknown", "", strings.ToLower(bPost), bPost + " "}
 var c05Locs = []string{
 	"https://sp.example.com/saml/acs", "https://sp.example.com/saml/acs2", "https://sp.example.com/saml/acs/",
 	"https://SP.example.com/saml/acs", "https://sp.example.com/saml/acs?x=1&y=2", "https://other.example.org/acs",
@@ -36,6 +38,11 @@ const c05Entity2 = "https://sp2.example.com/metadata"
 
 func genEndpoint(r *rand.Rand) mEndpoint {
 	e := mEndpoint{Binding: pick(r, c05Bindings), Location: pick(r, c05Locs), Index: pick(r, c05Indices)}
+	// registered metadata as it looks AFTER parsing: metadata.go blanks the Location of endpoints with a
+	// binding it does not know (PAOS, legacy profiles); a Location attribute can also be literally empty
+	if e.Binding == bPAOS || e.Binding == "urn:example:unknown" || r.Intn(12) == 0 {
+		e.Location = ""
+	}
 	switch r.Intn(5) {
 	case 0:
 		e.Default = bptr(true)
@@ -439,6 +446,12 @@ func runC05(c *Ctx) {
 		{Entity: c05Entity, Descs: []mSPSSO{{}, {ACS: []mEndpoint{{bRedirect, c05Locs[0], 0, nil}, {bPost, c05Locs[0], 1, nil}, {bPost, c05Locs[1], 1, t}}}}},
 		// no descriptors at all
 		{Entity: c05Entity},
+		// blank-Location endpoints (parser-blanked PAOS, literally empty) before, between and after the good ones
+		{Entity: c05Entity, Descs: []mSPSSO{{ACS: []mEndpoint{{bPAOS, "", 0, nil}, {bPost, c05Locs[0], 1, nil}, {bRedirect, c05Locs[1], 2, nil}}}}},
+		{Entity: c05Entity, Descs: []mSPSSO{{ACS: []mEndpoint{{bPost, c05Locs[0], 1, nil}, {bPAOS, "", 2, t}, {bPost, "", 3, nil}, {bPost, c05Locs[1], 4, nil}}}}},
+		{Entity: c05Entity, Descs: []mSPSSO{{ACS: []mEndpoint{{bArtifact, c05Locs[1], 0, nil}}}, {ACS: []mEndpoint{{bPost, c05Locs[0], 1, nil}, {bPAOS, "", 5, nil}, {bPAOS, "", 5, nil}}}}},
+		{Entity: c05Entity, Descs: []mSPSSO{{ACS: []mEndpoint{{bPAOS, "", 7, nil}}}, {ACS: []mEndpoint{{"urn:example:unknown", "", 8, f}}}}},
+		{Entity: c05Entity, Descs: []mSPSSO{{ACS: []mEndpoint{{bRedirect, "", 1, t}, {bPost, c05Locs[0], 1, nil}}}}},
 		// isDefault=false everywhere, redirect first
 		{Entity: c05Entity, Descs: []mSPSSO{{ACS: []mEndpoint{{bRedirect, c05Locs[1], 5, f}, {bPost, c05Locs[0], -1, f}}}}},
 	}
@@ -484,6 +497,9 @@ func runC05(c *Ctx) {
 				n := n
 				vary = append(vary, func(w *mWire) { w.Issuer = sptr(n) })
 			}
+			vary = append(vary, func(w *mWire) { w.explicitEmptyAttr = true }, // AssertionConsumerServiceURL="" written explicitly
+				func(w *mWire) { w.explicitEmptyAttr = true; w.ACSIndex = "77" }, func(w *mWire) { w.ACSIndex = "77" }, func(w *mWire) { w.ACSIndex = "5" },
+				func(w *mWire) { w.ACSIndex = "77"; w.ACSURL = c05Locs[1] })
 			for vi, v := range vary {
 				w := base
 				v(&w)
